@@ -1,5 +1,6 @@
 import PharmpyModel.Core.Sexp
 import PharmpyModel.C15.Thread
+import PharmpyModel.C15.Proc
 open Pharmpy Pharmpy.C15
 
 def bad : Sexp := .list [.atom "err", .atom "bad-op"]
@@ -23,9 +24,38 @@ def ev? : Sexp → Option Ev
   | .list [.atom "exExit", t] => do some (.exExit (← t.asNat?))
   | _ => none
 
+def poutS : POut → String
+  | .entered => "entered" | .exited => "exited" | .inLockf => "inLockf"
+  | .raisedRecursive => "RecursiveDeadlockError" | .raisedWouldBlock => "WouldBlock"
+
+def pev? : Sexp → Option PEv
+  | .list [.atom "enter", p, t, sh, b, r] =>
+    do some (.enter (← p.asNat?) (← t.asNat?) (← sh.asBool?) (← b.asBool?) (← r.asBool?))
+  | .list [.atom "lockf", p, t] => do some (.lockf (← p.asNat?) (← t.asNat?))
+  | .list [.atom "exit", p, t, sh] => do some (.exit (← p.asNat?) (← t.asNat?) (← sh.asBool?))
+  | _ => none
+
+def sortNats (xs : List Nat) : List Nat := (xs.toArray.qsort (· < ·)).toList
+
+def kstateS (s : KS) (pids : List Nat) : Sexp :=
+  .list [ .list (s.kernel.map (fun e => .list [Sexp.ofNat e.1, Sexp.ofBool e.2])),
+          .list (pids.map (fun p =>
+            let l := s.procs p
+            .list [Sexp.ofNat p, Sexp.ofNats (sortNats l.sharedBy), Sexp.ofNats (sortNats l.exclBy),
+                   (match l.pend with | none => .atom "none" | some pd => Sexp.ofNat pd.tid)])) ]
+
 structure St where
   fixed : Bool := true
   tls : List (Nat × TL) := []
+  kss : List (Nat × KS) := []
+
+def St.getK (st : St) (k : Nat) : KS :=
+  match st.kss.find? (fun p => p.1 == k) with
+  | some p => p.2
+  | none => {}
+
+def St.setK (st : St) (k : Nat) (s : KS) : St :=
+  { st with kss := (k, s) :: st.kss.filter (fun p => p.1 != k) }
 
 def St.get (st : St) (k : Nat) : TL :=
   match st.tls.find? (fun p => p.1 == k) with
@@ -39,7 +69,7 @@ def handle (st : St) (req : Sexp) : St × Sexp :=
   match req with
   | .list [.atom "reset", f] =>
     match f.asBool? with
-    | some f => ({ fixed := f, tls := [] }, .atom "ok")
+    | some f => ({ fixed := f, tls := [], kss := [] }, .atom "ok")
     | none => (st, bad)
   | .list [.atom "step", k, e] =>
     match k.asNat?, ev? e with
@@ -50,6 +80,16 @@ def handle (st : St) (req : Sexp) : St × Sexp :=
   | .list [.atom "enabled", k, e] =>
     match k.asNat?, ev? e with
     | some k, some e => (st, Sexp.ofBool (step st.fixed (st.get k) e).isSome)
+    | _, _ => (st, bad)
+  | .list [.atom "pstep", k, e, pids] =>
+    match k.asNat?, pev? e, pids.asList? with
+    | some k, some e, some pids => match pstep (st.getK k) e with
+      | none => (st, .list [.atom "disabled"])
+      | some (s', o) => (st.setK k s', .list [.atom "ok", .atom (poutS o), kstateS s' (pids.filterMap Sexp.asNat?)])
+    | _, _, _ => (st, bad)
+  | .list [.atom "penabled", k, e] =>
+    match k.asNat?, pev? e with
+    | some k, some e => (st, Sexp.ofBool (pstep (st.getK k) e).isSome)
     | _, _ => (st, bad)
   | .list [.atom "state", k] =>
     match k.asNat? with
